@@ -47,6 +47,7 @@ WRAPPERS = {
     "let2c": "let\n  u = 1;\nin\n# between\nlet\n  u = 2;\n  w = 3;\nin\n# before body\n%s",  # trivia between layers
     "letinh": "let\n  inherit (p) l;\n  u = 1;\nin\n%s",  # a let layer holding an inherit next to a binding
     "letinh0": "let\n  inherit (p) l;\nin\n%s",  # a let layer made of an inherit only
+    "lamc": "p: %s",  # overlay style: the body starts on the colon line
 }
 
 
@@ -66,7 +67,7 @@ BODY_SIMPLER = {
     "split": ["attrpath", "inline", "empty"],
     "ml_inline_nested": ["nested", "inline", "empty"],
 }
-WRAPPER_SIMPLER = {"let2": ["let1"], "lamf": ["lam"], "letap": ["let1"], "let2c": ["let2"], "letset": ["let1"], "letinh": ["let1", "letinh0"]}
+WRAPPER_SIMPLER = {"let2": ["let1"], "lamf": ["lam"], "lamc": ["lam"], "letap": ["let1"], "let2c": ["let2"], "letset": ["let1"], "letinh": ["let1", "letinh0"]}
 
 
 def op_reductions(op):
